@@ -53,3 +53,652 @@ def gen_coq():
     s += G.defz('DEFAULT_QPM', constants.DEFAULT_QUARTERS_PER_MINUTE)
     s += G.defz('DEFAULT_VELOCITY', T.DECORATION_TO_VELOCITY['!mf!'])
     return s
+
+
+# =====================================================================================
+# Case schema (JSON).  input = {'sections': [section, ...]}; section = [line, ...]
+#   line  = ['f', field] | ['m', [token, ...]]
+#   field = ['nop', name, text] | ['X', n] | ['M', kind, n, d, text]  kind: C, C|, none, frac, bad
+#         | ['L', n, d, short] | ['Q', kind, [[n, d], ...], rate, text]  kind: frac, bare, string
+#         | ['K', tonic, sep, mode, exp, [[acc, letter], ...]] | ['Kbad', text] | ['P', text] | ['V', text]
+#   token = ['n', acc, letter, octs, num, slashes, den, glue] | ['bar', lc, barstr, rc] | ['colons', n]
+#         | ['br', '>' or '<', k] | ['in', field] | ['nop', text] | ['un', kind, text]
+#   acc: '', '^', '_', '=', '^^', '__'
+# Tokens are rendered separated by one space (a glued note follows a note without a space).
+# =====================================================================================
+import fractions
+import math
+
+Fr = fractions.Fraction
+ACCS = ['', '^', '_', '=', '^^', '__']
+UNSUP = {'chord': 0, 'tuplet': 1, 'variant': 2, 'invalid': 3}
+UNSUP_EXC = {'chord': 'ChordError', 'tuplet': 'TupletError', 'variant': 'VariantEndingError',
+             'invalid': 'InvalidCharacterError'}
+EXN = {0: 'ABCParseError', 1: 'MultiVoiceError', 2: 'RepeatParseError', 3: 'VariantEndingError', 4: 'PartError',
+       5: 'InvalidCharacterError', 6: 'ChordError', 7: 'DuplicateReferenceNumberError', 8: 'TupletError',
+       20: 'KeyError', 21: 'ZeroDivisionError', 22: 'ValueError', 23: 'IndexError', 24: 'TypeError'}
+FAMILY = set(EXN[k] for k in range(0, 9))
+
+
+# ---------------------------------------------------------------- printer
+def render_field(f):
+    k = f[0]
+    if k == 'nop':
+        return '%s:%s' % (f[1], f[2])
+    if k == 'X':
+        return 'X:%d' % f[1]
+    if k == 'M':
+        if f[1] == 'frac':
+            return 'M:%d/%d' % (f[2], f[3])
+        return 'M:' + f[4]
+    if k == 'L':
+        return 'L:%d' % f[1] if (f[3] and f[2] == 1) else 'L:%d/%d' % (f[1], f[2])
+    if k == 'Q':
+        if f[1] == 'frac':
+            return 'Q:' + f[4] + ' '.join('%d/%d' % (n, d) for n, d in f[2]) + '=%d' % f[3]
+        if f[1] == 'bare':
+            return 'Q:' + f[4] + '%d' % f[3]
+        return 'Q:' + f[4]
+    if k == 'K':
+        s = 'K:' + f[1] + f[2] + f[3]
+        if f[4]:
+            s += ' exp'
+        for a, l in f[5]:
+            s += ' ' + a + l
+        return s
+    if k in ('Kbad', 'P', 'V'):
+        return {'Kbad': 'K:', 'P': 'P:', 'V': 'V:'}[k] + f[1]
+    raise ValueError(f)
+
+
+def render_token(t):
+    k = t[0]
+    if k == 'n':
+        return t[1] + t[2] + t[3] + ('' if t[4] is None else str(t[4])) + '/' * t[5] + ('' if t[6] is None else str(t[6]))
+    if k == 'bar':
+        return ':' * t[1] + t[2] + ':' * t[3]
+    if k == 'colons':
+        return ':' * t[1]
+    if k == 'br':
+        return t[1] * t[2]
+    if k == 'in':
+        return '[' + render_field(t[1]) + ']'
+    if k in ('nop',):
+        return t[1]
+    if k == 'un':
+        return t[2]
+    raise ValueError(t)
+
+
+def render_line(l):
+    if l[0] == 'f':
+        return render_field(l[1])
+    out = ''
+    prev = None
+    for t in l[1]:
+        s = render_token(t)
+        if out and not (t[0] == 'n' and len(t) > 7 and t[7] and prev is not None and prev[0] == 'n'):
+            out += ' '
+        out += s
+        prev = t
+    return out
+
+
+def render_book(secs):
+    return '\n\n'.join('\n'.join(render_line(l) for l in sec if not (l[0] == 'm' and not l[1])) for sec in secs) + '\n'
+
+
+# ---------------------------------------------------------------- wire
+def wire_field(f):
+    k = f[0]
+    if k == 'nop':
+        return [0]
+    if k == 'X':
+        return [1, f[1]]
+    if k == 'M':
+        return [2, {'C': 0, 'C|': 1, 'none': 2, 'frac': 3, 'bad': 4}[f[1]], f[2], f[3]]
+    if k == 'L':
+        return [3, f[1], f[2]]
+    if k == 'Q':
+        return [4, {'frac': 0, 'bare': 1, 'string': 2}[f[1]], [[n, d] for n, d in f[2]], f[3]]
+    if k == 'K':
+        return [5, f[1], f[3], 1 if f[4] else 0, [[ACCS.index(a), ord(l)] for a, l in f[5]]]
+    if k == 'P':
+        return [6]
+    if k == 'V':
+        return [7]
+    if k == 'Kbad':
+        return [8]
+    raise ValueError(f)
+
+
+def wire_token(t):
+    k = t[0]
+    if k == 'n':
+        return [0, ACCS.index(t[1]), ord(t[2]), [1 if c == "'" else 0 for c in t[3]],
+                [] if t[4] is None else [t[4]], t[5], [] if t[6] is None else [t[6]]]
+    if k == 'bar':
+        return [1, t[1], len(t[2]), t[3]]
+    if k == 'colons':
+        return [2, t[1]]
+    if k == 'br':
+        return [3, 1 if t[1] == '>' else 0, t[2]]
+    if k == 'in':
+        return [4, wire_field(t[1])]
+    if k == 'nop':
+        return [5]
+    if k == 'un':
+        return [6, UNSUP[t[1]]]
+    raise ValueError(t)
+
+
+def wire_line(l):
+    if l[0] == 'f':
+        return [0, wire_field(l[1])]
+    return [1, [wire_token(t) for t in l[1]]]
+
+
+def model_input(case):
+    return [1, [[wire_line(l) for l in sec] for sec in case['input']['sections']]]
+
+
+def _q(x):
+    return ['Q', x[0], x[1]]
+
+
+def _mnote(n):
+    return [n[0], _q(n[1]), _q(n[2])]
+
+
+def _mtune(t):
+    ref, notes, tempos, tsigs, ksigs, sects, groups, total, exp = t
+    return [ref, [_mnote(n) for n in notes], [[_q(a), _q(b)] for a, b in tempos],
+            [[_q(a), n, d] for a, n, d in tsigs], [[_q(a), k, m] for a, k, m in ksigs],
+            [[_q(a), i] for a, i in sects], [[[i], n] for i, n in groups], _q(total),
+            (['OK', exp[1], sorted([_mnote(n) for n in exp[2]], key=_note_key)] if exp[0] == 0 else ['EXC', EXN[exp[1]]])]
+
+
+def _val(x):
+    if x[0] == 'Q':
+        return Fr(x[1], x[2])
+    return float.fromhex(x[1])
+
+
+def _note_key(n):
+    return (float(_val(n[1])), n[0], float(_val(n[2])))
+
+
+def model_output(case, m):
+    if m[0] == 1:
+        return ['RAISED', EXN[m[1]]]
+    return ['OK', [_mtune(t) for t in m[1]], [EXN[e] for e in m[2]]]
+
+
+# ---------------------------------------------------------------- implementation
+def _f(x):
+    return ['F', float(x).hex()]
+
+
+def _canon_tune(ns):
+    from note_seq import sequences_lib
+    try:
+        ex = sequences_lib.expand_section_groups(ns)
+        exp = ['OK', [sa.section_id for sa in ex.section_annotations],
+               sorted([[n.pitch, _f(n.start_time), _f(n.end_time)] for n in ex.notes], key=_note_key)]
+    except Exception as e:  # noqa
+        exp = ['EXC', type(e).__name__]
+    return [ns.reference_number,
+            [[n.pitch, _f(n.start_time), _f(n.end_time)] for n in ns.notes],
+            [[_f(t.time), _f(t.qpm)] for t in ns.tempos],
+            [[_f(t.time), t.numerator, t.denominator] for t in ns.time_signatures],
+            [[_f(k.time), int(k.key), int(k.mode)] for k in ns.key_signatures],
+            [[_f(s.time), s.section_id] for s in ns.section_annotations],
+            [[[x.section_id for x in g.sections], g.num_times] for g in ns.section_groups],
+            _f(ns.total_time), exp]
+
+
+def _parse_text(text):
+    from note_seq import abc_parser
+    try:
+        tunes, excs = abc_parser.parse_abc_tunebook(text)
+    except Exception as e:  # noqa
+        return ['RAISED', type(e).__name__], None
+    return ['OK', [_canon_tune(ns) for ns in tunes.values()], [type(e).__name__ for e in excs]], tunes
+
+
+def impl(case):
+    return _parse_text(render_book(case['input']['sections']))[0]
+
+
+def _close(a, b):
+    a, b = _val(a), _val(b)
+    return abs(a - b) <= 1e-9 * max(1, abs(a), abs(b))
+
+
+def _eq(a, b):
+    if isinstance(a, list) and isinstance(b, list):
+        if a and b and a[0] in ('F', 'Q') and b[0] in ('F', 'Q') and isinstance(a[0], str):
+            return _close(a, b)
+        return len(a) == len(b) and all(_eq(x, y) for x, y in zip(a, b))
+    return a == b
+
+
+def equal(case, a, b):
+    return _eq(a, b)
+
+
+# =====================================================================================
+# The property, evaluated from the ABC 2.1 rules on the token description (oracle side).
+# Nothing below looks at the model; it is the statement the theorems are about.
+# =====================================================================================
+LETTER_PC = {'C': 0, 'D': 2, 'E': 4, 'F': 5, 'G': 7, 'A': 9, 'B': 11}
+LETTER_FIFTHS = {'F': -1, 'C': 0, 'G': 1, 'D': 2, 'A': 3, 'E': 4, 'B': 5}
+SHARPS = 'FCGDAEB'
+# mode -> (offset of the signature in fifths relative to the major key on the same tonic, proto enum name)
+MODES = {'maj': (0, 'MAJOR'), 'ion': (0, 'MAJOR'), '': (0, 'MAJOR'), 'm': (-3, 'MINOR'), 'min': (-3, 'MINOR'),
+         'aeo': (-3, 'MINOR'), 'mix': (-1, 'MIXOLYDIAN'), 'dor': (-2, 'DORIAN'), 'phr': (-4, 'PHRYGIAN'),
+         'lyd': (1, 'LYDIAN'), 'loc': (-5, 'LOCRIAN')}
+MODE_NAMES = {'MAJOR': ['', 'maj', 'major', 'ion', 'ionian'], 'MINOR': ['m', 'min', 'minor', 'aeo', 'aeolian'],
+              'MIXOLYDIAN': ['mix', 'mixolydian'], 'DORIAN': ['dor', 'dorian'], 'PHRYGIAN': ['phr', 'phrygian'],
+              'LYDIAN': ['lyd', 'lydian'], 'LOCRIAN': ['loc', 'locrian']}
+
+
+def key_semantics(tonic, mode):
+    """(signature in sharps, tonic pitch class, mode enum name) from the circle of fifths, or None."""
+    if not tonic or tonic[0].upper() not in LETTER_PC or tonic[1:] not in ('', '#', 'b'):
+        return None
+    m = mode.lower()
+    m3 = m[:3]
+    if m3 not in MODES or (m3 == 'm' and m != 'm') or (m3 == '' and m != ''):
+        return None
+    off, name = MODES[m3]
+    adj = {'': 0, '#': 1, 'b': -1}[tonic[1:]]
+    sig = LETTER_FIFTHS[tonic[0].upper()] + 7 * adj + off
+    if not -7 <= sig <= 7:
+        return None
+    return sig, (LETTER_PC[tonic[0].upper()] + adj) % 12, name
+
+
+def sig_accidentals(sig):
+    acc = {c: 0 for c in 'ABCDEFG'}
+    for i in range(abs(sig)):
+        if sig > 0:
+            acc[SHARPS[i]] = 1
+        else:
+            acc[SHARPS[::-1][i]] = -1
+    return acc
+
+
+class Outside(Exception):
+    """the tune is not in the supported subset (no claim about its content)"""
+
+
+def note_multiplier(t):
+    num, sl, den = t[4], t[5], t[6]
+    if num is not None and num < 1 or den is not None and den < 1:
+        raise Outside('non-positive length')
+    if num is None and sl == 0 and den is None:
+        return Fr(1)
+    if num is None and den is None:
+        return Fr(1, 2 ** sl)
+    if num is None and sl == 1:
+        return Fr(1, den)
+    if num is not None and sl == 0 and den is None:
+        return Fr(num)
+    if num is not None and sl == 1:
+        return Fr(num, den if den is not None else 2)
+    raise Outside('length form')
+
+
+def spec_tune(lines):
+    """Expected observables of one tune of the supported subset, by the ABC 2.1 rules.
+    Raises Outside if the tune is not in the subset.  Unsupported constructs are handled by the caller."""
+    from note_seq.protobuf import music_pb2
+    KS = music_pb2.NoteSequence.KeySignature
+    ref = 0
+    meters, keys, tempos = [], [], []
+    unit = None
+    hdr_tempo = None
+    key_acc = sig_accidentals(0)
+    bar_acc = {}
+    t = Fr(0)
+    qpm = Fr(120)
+    notes = []            # [pitch, start, end]
+    in_header = True
+    # repeat structure: list of [first note index, times]; boundaries take effect only after some notes
+    segs = []
+    seg_start = 0
+    open_rep = None
+    any_boundary = False
+
+    def field(f, inline):
+        nonlocal ref, unit, hdr_tempo, key_acc, qpm
+        k = f[0]
+        if k == 'nop':
+            return
+        if k == 'X':
+            ref = f[1]
+        elif k == 'M':
+            if f[1] == 'bad':
+                raise Outside('meter')
+            if f[1] == 'frac' and (f[2] < 1 or f[3] < 1):
+                raise Outside('meter')
+            if f[1] != 'none':
+                n, d = {'C': (4, 4), 'C|': (2, 2)}.get(f[1], (f[2], f[3]))
+                meters.append([t, n, d])
+        elif k == 'L':
+            if f[1] < 1 or f[2] < 1:
+                raise Outside('unit length')
+            unit = Fr(f[1], f[2])
+        elif k == 'Q':
+            if f[1] == 'string':
+                return
+            if f[3] < 1 or any(n < 1 or d < 1 for n, d in f[2]):
+                raise Outside('tempo')
+            beat = sum((Fr(n, d) for n, d in f[2]), Fr(0)) if f[1] == 'frac' else None
+            if in_header:
+                hdr_tempo = (beat, f[3])
+            else:
+                q = (beat if beat is not None else unit) * 4 * f[3]
+                tempos.append([t, q])
+                qpm = q
+        elif k == 'K':
+            sem = key_semantics(f[1], f[3])
+            if sem is None:
+                raise Outside('key')
+            sig, pc, name = sem
+            acc = sig_accidentals(0 if f[4] else sig)
+            for a, l in f[5]:
+                if a in ('^^', '__'):
+                    raise Outside('double accidental in key')
+                if a:
+                    acc[l.upper()] = {'^': 1, '_': -1, '=': 0}[a]
+            key_acc = acc
+            keys.append([t, pc, int(getattr(KS, name))])
+        else:
+            raise Outside('field ' + k)
+
+    def end_header():
+        nonlocal unit, qpm, in_header
+        if unit is None:
+            if len(meters) > 1:
+                raise Outside('several meters in the header')
+            unit = Fr(1, 16) if meters and Fr(meters[0][1], meters[0][2]) < Fr(3, 4) else Fr(1, 8)
+        if hdr_tempo is not None:
+            beat, rate = hdr_tempo
+            q = (beat if beat is not None else unit) * 4 * rate
+            tempos.append([Fr(0), q])
+            qpm = q
+        in_header = False
+
+    def boundary(times):
+        """a section boundary: the notes since the previous boundary are played [times] times"""
+        nonlocal seg_start, any_boundary
+        any_boundary = True
+        if len(notes) > seg_start:
+            segs.append([seg_start, len(notes), times])
+            seg_start = len(notes)
+        elif times != 1:
+            raise Outside('empty repeat body')
+
+    for l in lines:
+        if l[0] == 'f':
+            field(l[1], False)
+            continue
+        if not l[1]:
+            continue
+        if in_header:
+            end_header()
+        pending = None          # broken rhythm waiting for its second note
+        last_broken = -1        # index of the last note that took part in a broken pair
+        prev_tok = None
+        for tok in l[1]:
+            k = tok[0]
+            if k == 'n':
+                if tok[1] in ('^^', '__'):
+                    raise Outside('double accidental')
+                letter = tok[2]
+                name = letter.upper()
+                pitch = 60 + LETTER_PC[name] + (12 if letter.islower() else 0)
+                if tok[1]:
+                    a = {'^': 1, '_': -1, '=': 0}[tok[1]]
+                    bar_acc[name] = a
+                elif name in bar_acc:
+                    a = bar_acc[name]
+                else:
+                    a = key_acc[name]
+                pitch += a + 12 * tok[3].count("'") - 12 * tok[3].count(',')
+                if not 0 <= pitch <= 127:
+                    raise Outside('pitch out of MIDI range')
+                dur = unit * note_multiplier(tok) * 4 * 60 / qpm
+                notes.append([pitch, t, t + dur])
+                t += dur
+                if pending is not None:
+                    if prev_tok is None or prev_tok[0] != 'br' or len(notes) < 2:
+                        raise Outside('broken rhythm not directly between two notes')
+                    a, b = notes[-2], notes[-1]
+                    if len(notes) - 2 == last_broken or a[2] - a[1] != b[2] - b[1] or len(notes) - 1 <= seg_start:
+                        raise Outside('broken rhythm between notes of different lengths')
+                    d = a[2] - a[1]
+                    kk = pending[1]
+                    move = d - d / 2 ** kk        # a>b: a dotted (k dots), b divided by 2^k
+                    if pending[0] == '<':
+                        move = -move
+                    a[2] += move
+                    b[1] += move
+                    last_broken = len(notes) - 1
+                    pending = None
+            elif k == 'br':
+                if pending is not None or prev_tok is None or prev_tok[0] != 'n':
+                    raise Outside('broken rhythm placement')
+                pending = (tok[1], tok[2])
+            elif k in ('bar', 'colons'):
+                bar_acc.clear()
+                if k == 'colons':
+                    if tok[1] % 2:
+                        raise Outside('odd colons')
+                    back = fwd = tok[1] // 2 + 1
+                    dbl = False
+                else:
+                    back = tok[1] + 1 if tok[1] else None
+                    fwd = tok[3] + 1 if tok[3] else None
+                    dbl = len(tok[2]) >= 2
+                if back is None and fwd is None:
+                    if dbl and open_rep is None and t > 0:
+                        boundary(1)
+                else:
+                    if open_rep is not None and back != open_rep:
+                        raise Outside('mismatched repeat')
+                    if back is not None:
+                        if t == 0:
+                            raise Outside('backward repeat at the start')
+                        boundary(back)
+                    else:
+                        if t > 0:
+                            boundary(1)
+                        else:
+                            any_boundary = True
+                    open_rep = fwd
+            elif k == 'in':
+                field(tok[1], True)
+            elif k == 'nop':
+                pass
+            else:
+                raise Outside('unsupported token')
+            prev_tok = tok
+        if pending is not None:
+            raise Outside('dangling broken rhythm')
+    if in_header:
+        end_header()
+    if open_rep is not None:
+        raise Outside('unterminated repeat')
+    if len(notes) > seg_start:
+        segs.append([seg_start, len(notes), 1])
+    # playing order
+    exp_notes = []
+    ids = []
+    off = Fr(0)
+    for i, (a, b, times) in enumerate(segs):
+        s0, s1 = notes[a][1] if a == 0 else notes[a - 1][2] if False else notes[a][1], notes[b - 1][2]
+        # the segment spans from the end of the previous segment to the end of its last note
+        s0 = notes[a - 1][2] if a > 0 else Fr(0)
+        for _ in range(times):
+            for n in notes[a:b]:
+                exp_notes.append([n[0], n[1] - s0 + off, n[2] - s0 + off])
+            off += s1 - s0
+            ids.append(i)
+    return {'ref': ref, 'notes': notes, 'tempos': tempos, 'meters': meters, 'keys': keys,
+            'total': notes[-1][2] if notes else Fr(0), 'expanded': exp_notes,
+            'ids': ids if any_boundary and segs else [], 'nsegs': len(segs)}
+
+
+def unsupported_of(lines):
+    """[(path, exception class name)] of the unsupported constructs of a tune."""
+    out = []
+    for i, l in enumerate(lines):
+        if l[0] == 'f':
+            if l[1][0] in ('P', 'V'):
+                out.append(((i,), 'PartError' if l[1][0] == 'P' else 'MultiVoiceError'))
+        else:
+            for j, t in enumerate(l[1]):
+                if t[0] == 'un':
+                    out.append(((i, j), UNSUP_EXC[t[1]]))
+                elif t[0] == 'in' and t[1][0] in ('P', 'V'):
+                    out.append(((i, j), 'PartError' if t[1][0] == 'P' else 'MultiVoiceError'))
+    return out
+
+
+def without(lines, path):
+    out = []
+    for i, l in enumerate(lines):
+        if i == path[0]:
+            if len(path) == 1:
+                continue
+            l = ['m', [t for j, t in enumerate(l[1]) if j != path[1]]]
+        out.append(l)
+    return out
+
+
+def classify(lines):
+    """('supported', spec) | ('unsupported', ExcName) | ('outside', why)"""
+    uns = unsupported_of(lines)
+    try:
+        if not uns:
+            return ('supported', spec_tune(lines))
+        if len(uns) == 1:
+            spec_tune(without(lines, uns[0][0]))
+            return ('unsupported', uns[0][1])
+        return ('outside', 'several unsupported constructs')
+    except Outside as e:
+        return ('outside', str(e))
+
+
+def split_book(secs):
+    secs = [s for s in secs if any(not (l[0] == 'm' and not l[1]) for l in s)]
+    if len(secs) > 1 and not any(l[0] == 'f' and l[1][0] == 'X' for l in secs[0]):
+        return secs[0], secs[1:]
+    return [], secs
+
+
+def _tclose(f, q):
+    f = float.fromhex(f[1])
+    return abs(f - q) <= 1e-9 * max(1, abs(q))
+
+
+def compare_with_spec(tune, sp):
+    """None or a description of the first deviation of a parsed tune (canonical form) from the rules."""
+    ref, notes, tempos, tsigs, ksigs, sects, groups, total, exp = tune
+    if ref != sp['ref']:
+        return {'what': 'reference-number', 'got': ref, 'expected': sp['ref']}
+    if len(notes) != len(sp['notes']):
+        return {'what': 'note-count', 'got': len(notes), 'expected': len(sp['notes'])}
+    for i, (g, e) in enumerate(zip(notes, sp['notes'])):
+        if g[0] != e[0]:
+            return {'what': 'pitch', 'note': i, 'got': g[0], 'expected': e[0]}
+        if not _tclose(g[1], e[1]):
+            return {'what': 'onset', 'note': i, 'got': float.fromhex(g[1][1]), 'expected': float(e[1])}
+        if not _tclose(g[2], e[2]):
+            return {'what': 'duration', 'note': i, 'got_end': float.fromhex(g[2][1]), 'expected_end': float(e[2])}
+    if len(tempos) != len(sp['tempos']) or not all(_tclose(g[0], e[0]) and _tclose(g[1], e[1])
+                                                   for g, e in zip(tempos, sp['tempos'])):
+        return {'what': 'tempo', 'got': [[float.fromhex(a[1]), float.fromhex(b[1])] for a, b in tempos],
+                'expected': [[float(a), float(b)] for a, b in sp['tempos']]}
+    if len(tsigs) != len(sp['meters']) or not all(_tclose(g[0], e[0]) and g[1:] == e[1:]
+                                                  for g, e in zip(tsigs, sp['meters'])):
+        return {'what': 'meter', 'got': [g[1:] for g in tsigs], 'expected': [e[1:] for e in sp['meters']]}
+    if len(ksigs) != len(sp['keys']) or not all(_tclose(g[0], e[0]) and g[1:] == e[1:]
+                                                for g, e in zip(ksigs, sp['keys'])):
+        return {'what': 'key-or-mode', 'got': [g[1:] for g in ksigs], 'expected': [e[1:] for e in sp['keys']]}
+    if not _tclose(total, sp['total']):
+        return {'what': 'total-time', 'got': float.fromhex(total[1]), 'expected': float(sp['total'])}
+    if exp[0] != 'OK':
+        return {'what': 'expansion-raises', 'exception': exp[1]}
+    en = sorted(sp['expanded'], key=lambda n: (n[1], n[0]))
+    if len(exp[2]) != len(en):
+        return {'what': 'repeat-expansion-note-count', 'got': len(exp[2]), 'expected': len(en),
+                'got_ids': exp[1], 'expected_ids': sp['ids']}
+    for i, (g, e) in enumerate(zip(exp[2], en)):
+        if g[0] != e[0] or not _tclose(g[1], e[1]) or not _tclose(g[2], e[2]):
+            return {'what': 'repeat-expansion-order', 'note': i, 'got': [g[0], float.fromhex(g[1][1])],
+                    'expected': [e[0], float(e[1])], 'got_ids': exp[1], 'expected_ids': sp['ids']}
+    if exp[1] != sp['ids'] and not (exp[1] == [] and sp['nsegs'] <= 1):
+        return {'what': 'section-order', 'got_ids': exp[1], 'expected_ids': sp['ids']}
+    return None
+
+
+def oracle(case, io):
+    secs = case['input']['sections']
+    header, tunes = split_book(secs)
+    alone = []
+    cls = []
+    for i, tn in enumerate(tunes):
+        r, _ = _parse_text(render_book(([header] if header else []) + [tn]))
+        # a lone tune without X: is itself read as a file header when a header precedes it; parse it joined
+        if header and not any(l[0] == 'f' and l[1][0] == 'X' for l in tn):
+            r, _ = _parse_text(render_book([header + tn]))
+        alone.append(r)
+        cls.append(classify(header + tn))
+        txt = render_book([header + tn])
+        if r[0] == 'RAISED':
+            return {'kind': 'foreign-exception-escapes', 'exception': r[1], 'tune': i, 'class': cls[-1][0], 'abc': txt}
+        c = cls[-1]
+        if c[0] == 'supported':
+            if r[2]:
+                return {'kind': 'supported-tune-rejected', 'exception': r[2][0], 'tune': i, 'abc': txt}
+            d = compare_with_spec(r[1][0], c[1])
+            if d:
+                d.update({'kind': 'tune-differs-from-abc-rules', 'tune': i, 'abc': txt})
+                return d
+        elif c[0] == 'unsupported':
+            if r[2] != [c[1]] or r[1]:
+                return {'kind': 'unsupported-construct-not-reported', 'expected': c[1], 'got': r[2], 'tune': i, 'abc': txt}
+        else:
+            if r[1] and r[1][0][8][0] != 'OK':
+                return {'kind': 'expansion-raises', 'exception': r[1][0][8][1], 'tune': i, 'class': 'outside', 'abc': txt}
+    # isolation: the tunebook result is the per-tune results put together
+    exp_tunes, exp_excs, seen, dup = [], [], set(), False
+    for r in alone:
+        if r[2]:
+            exp_excs.append(r[2][0])
+        else:
+            if r[1][0][0] in seen:
+                dup = True
+                break
+            seen.add(r[1][0][0])
+            exp_tunes.append(r[1][0])
+    if dup:
+        if io != ['RAISED', 'DuplicateReferenceNumberError']:
+            return {'kind': 'duplicate-reference-number-not-raised', 'got': io[0]}
+        return None
+    if io[0] == 'RAISED':
+        return {'kind': 'foreign-exception-escapes', 'exception': io[1], 'tune': None, 'abc': render_book(secs)}
+    if io[2] != exp_excs:
+        return {'kind': 'exception-list-differs', 'got': io[2], 'expected': exp_excs}
+    if io[1] != exp_tunes:
+        return {'kind': 'tune-result-depends-on-other-tunes', 'refs_got': [t[0] for t in io[1]],
+                'refs_expected': [t[0] for t in exp_tunes]}
+    return None
+
+
+def nontrivial(case, io):
+    return io[0] == 'OK' and any(len(t[1]) >= 2 for t in io[1])
